@@ -126,8 +126,8 @@ type Config struct {
 	KeepSrc bool
 }
 
-var unionGo = "\n\ts string\n\tt string\n\tn int\n\tm int\n"
-var unionTS = "\n\ts :string;\n\tt :string;\n\tn :number;\n\tm :number;\n"
+var unionGo = "\n\ts string\n\tt string\n\tn int\n\tm int\n\tst string\n\tnm int\n"
+var unionTS = "\n\ts :string;\n\tt :string;\n\tn :number;\n\tm :number;\n\tst :string;\n\tnm :number;\n"
 
 func pkgName(id int, v Variant) string { return fmt.Sprintf("p%d%s", id, v.ident()) }
 
